@@ -142,6 +142,23 @@ pub fn run(o: &Opts) -> i32 {
         check_pair_ty!(l, FuzzyHash, "FuzzyHash", &sa, &sb);
         l.sample(|| J::obj().set("a", J::s(a.text())).set("b", J::s(b.text())));
     }));
+    streams.push(Stream::new("chunk-chains", o.n(40_000, 3_000_000), |_i, rng: &mut Rng, l: &mut Local| {
+        // long common subsequence built from chunks of exactly 5/6/7/8 symbols: with 6-symbol chunks there is
+        // NO shared 7-symbol window, so candidate must be false and the score 0
+        let (x, y) = hashes::gen_chain_pair(rng, 64);
+        let log = hashes::gen_log(rng);
+        let a = HV { log, bh1: x.clone(), bh2: y.clone() }.normalized();
+        let b = match rng.below(3) {
+            0 => HV { log, bh1: y.clone(), bh2: x.clone() },
+            1 => HV { log: (log + 1).min(30), bh1: x.clone(), bh2: vec![] },
+            _ => HV { log, bh1: y.clone(), bh2: vec![] },
+        }
+        .normalized();
+        check_pair_ty!(l, LongFuzzyHash, "LongFuzzyHash", &a, &b);
+        let (sa, sb) = (fit_short(&a), fit_short(&b));
+        check_pair_ty!(l, FuzzyHash, "FuzzyHash", &sa, &sb);
+        l.count("chunk_chain_pairs", 1);
+    }));
     streams.push(Stream::new("all-31x31-block-sizes", 31 * 31 * o.n(3, 30), |i, rng: &mut Rng, l: &mut Local| {
         let (l1, l2) = ((i % 31) as u8, ((i / 31) % 31) as u8);
         let mut a = hashes::gen_hv(rng, 32, true);
@@ -172,7 +189,7 @@ pub fn run(o: &Opts) -> i32 {
         o,
         rr,
         Report {
-            rule: "pairs of normalized hashes (W4: edits, crossing, run changes; all 31x31 block-size combinations incl. index 30 whose block hash 2 has effective index 31), short and long forms. Per pair: score in 0..=100, symmetric, 100 against itself, 0 when far; non-zero iff equal or candidate; candidate iff the index-window sets intersect; every window iterator (slices, numeric, index) against the definition incl. len()/size_hint() and injectivity by decoding. Non-trivial = candidate pair with a != b; distinct by pair.".into(),
+            rule: "pairs of normalized hashes (W4: edits, crossing, run changes, chunk chains of exactly 5/6/7/8-symbol chunks separated by single symbols - long common subsequence with or without a shared 7-symbol window; all 31x31 block-size combinations incl. index 30 whose block hash 2 has effective index 31), short and long forms. Per pair: score in 0..=100, symmetric, 100 against itself, 0 when far; non-zero iff equal or candidate; candidate iff the index-window sets intersect; every window iterator (slices, numeric, index) against the definition incl. len()/size_hint() and injectivity by decoding. Non-trivial = candidate pair with a != b; distinct by pair.".into(),
             assumptions: vec![],
             exhaustive: false,
             min_nontrivial: 2000 * o.scale_pct / 100,
